@@ -34,7 +34,7 @@ type Harness struct {
 }
 
 func (h *Harness) explanation() string {
-	return "Second-crash cases (crash at a blockdb.write:dat-written / idx-written point or with the index cut by one record -> fresh process recovers like the client, is fed every block with snapshots disabled, flushes -> second crash at each idx-written point and after Idle; thorough: at every point for the first data-written hit of each scripted workload -> third fresh process re-opens and is judged by the same predicate; not compared with the model). The known finding undo-file-keyed-by-height is only assigned when the captured directory really holds an undo/<h> file naming another block than the re-opened chain's block at h (a missing undo file or any other failure off-branch is reported under its own key). Exhaustive over the crash points of each workload: the harness installs a vhook callback that copies the data directory at EVERY vhook.Point hit (all point names x all hit counts) of the workloads {extend, save, abort-by-new-block (save paused after its first 64 KiB chunk, aborted by CommitBlockTxs, later one hurried), reorg-after-save, reorg-save-extend, reorg-before-any-save, seeded generated histories (canonical schedule, compared with the model), free-running variants, and an adversarial schedule holding block writes back while a snapshot is being written}; each copy is re-opened by a fresh process (client mode: NewChainExt(DoNotRescan) + do_the_blocks/LocalAcceptBlock loop; library mode: NewChainExt default) and must give: no panic, a tip the node knew, UTXO dump == independent replay of that tip's chain, final (tip, dump) after feeding the remaining blocks == the uninterrupted run, and the same again after a clean close + re-open. Plus every record-boundary (and mid-record) truncation of blockchain.new and prefix truncations of blockchain.dat after a clean close. The Lean model (Model/Persist.lean) is tied by (a) point-name sequence == labels of the model's effect list, (b) recovered/final (tip, coin set) at every crash point == model's recover(apply(take k effects))."
+	return "Wide workloads (wide.go; judged by the property predicate on the real code only, not compared with the Lean model): (1) failed-reorg-then-idle: a side branch whose first block spends a non-existent output overtakes the tip while all its blocks are still in the block-write queue; the reorganisation fails, the queued blocks are dropped from the index, further valid blocks are queued behind them, then Idle + snapshot + Close; every vhook point is a crash point and the cleanly closed directory is re-opened by a fresh process (clean-restart identity: same tip, same UTXO dump, recovery loop is a no-op). (2) save-race: back-to-back snapshots under a pinned schedule - the file goroutine of snapshot S1 is held at a vhook point, a block is accepted, Idle starts S2 which parks behind S1's file, a further block is submitted from its own goroutine; if its commit reaches utxo.commit:after-commit while S2 is pending it is held there until S2 has walked the maps, then everything is released (histogram wide:save-race:window-reached / window-not-reached; with the code as written the commit waits for the pending snapshot and the window is not reached - a trivial case); every point is a crash point, in particular the renamed UTXO.db of S2. (3) data-file roll-over: BlockDBOpts.MaxDataFileSize = 520 bytes (generated: 340..900) in every process, so that a new data file starts every 1-3 blocks; Idle + complete snapshot after every block (second variant: clean Close + NewChainExt inside the history after every block); single crash at every point, and two-crash cases from EVERY block boundary (index record written / snapshot renamed = the directory of a clean shutdown): restart, feed every block without a snapshot, second crash at each index write, third process judged (histogram wide:rollover:first-restart-with-exactly-one-block-in-the-newest-data-file). In all fresh-process reports every block of the active chain is read back from the store and must hash to its index entry and equal the bytes submitted. Second-crash cases (crash at a blockdb.write:dat-written / idx-written point or with the index cut by one record -> fresh process recovers like the client, is fed every block with snapshots disabled, flushes -> second crash at each idx-written point and after Idle; thorough: at every point for the first data-written hit of each scripted workload -> third fresh process re-opens and is judged by the same predicate; not compared with the model). The known finding undo-file-keyed-by-height is only assigned when the captured directory really holds an undo/<h> file naming another block than the re-opened chain's block at h (a missing undo file or any other failure off-branch is reported under its own key). Exhaustive over the crash points of each workload: the harness installs a vhook callback that copies the data directory at EVERY vhook.Point hit (all point names x all hit counts) of the workloads {extend, save, abort-by-new-block (save paused after its first 64 KiB chunk, aborted by CommitBlockTxs, later one hurried), reorg-after-save, reorg-save-extend, reorg-before-any-save, seeded generated histories (canonical schedule, compared with the model), free-running variants, and an adversarial schedule holding block writes back while a snapshot is being written}; each copy is re-opened by a fresh process (client mode: NewChainExt(DoNotRescan) + do_the_blocks/LocalAcceptBlock loop; library mode: NewChainExt default) and must give: no panic, a tip the node knew, UTXO dump == independent replay of that tip's chain, final (tip, dump) after feeding the remaining blocks == the uninterrupted run, and the same again after a clean close + re-open. Plus every record-boundary (and mid-record) truncation of blockchain.new and prefix truncations of blockchain.dat after a clean close. The Lean model (Model/Persist.lean) is tied by (a) point-name sequence == labels of the model's effect list, (b) recovered/final (tip, coin set) at every crash point == model's recover(apply(take k effects))."
 }
 
 func (h *Harness) run() {
@@ -43,6 +43,7 @@ func (h *Harness) run() {
 		"crash = process kill (DESIGN §3): every completed syscall survives, user-space buffers are lost; a directory copy taken inside the vhook callback while every other goroutine is at most one file-system effect ahead stands for that instant",
 		"crash points are the vhook.Point calls present in /repo (commit 6570cb3d): between the file-system effects of UnspentDB.save/CommitBlockTxs, BlockDB.writeOne/setBlockFlag, Chain.CommitBlock/UndoLastBlock/MoveToBlock/ParseTillBlock",
 		"all blocks have the same difficulty (work = height); scripts are OP_TRUE; UnwindBufLen (2560) is never exceeded",
+		"wide workloads: blocks of a branch that is invalid in context are not offered again to the restarted node; the data-file roll-over size is the same in every restart of a workload",
 		"client recovery is re-implemented in the child from client/main.go (do_the_blocks, LocalAcceptBlock) — the client binary itself is not run",
 	}
 	h.shapes = map[string]int{}
@@ -73,6 +74,7 @@ func (h *Harness) run() {
 	for i := 0; i < r.N(3, 14); i++ {
 		ws = append(ws, genWorkload(g, i))
 	}
+	ws = append(ws, wideWorkloads(r, r.Rng.Fork())...)
 	exhaustive := true
 	for _, w := range ws {
 		if o := os.Getenv("C07_ONLY"); o != "" && o != w.Name {
@@ -118,7 +120,10 @@ func (h *Harness) doWorkload(w Workload, only int, onlyMode string, onlySecond s
 			map[string]interface{}{"case": rep(0, ""), "results": wr.Results})
 	}
 	blocksFile := h.root + "/" + w.Name + "/blocks.bin"
-	writeBlocksFile(blocksFile, wr.Blocks)
+	writeBlocksFile(blocksFile, feedBlocks(w, wr))
+	setChildEnv(w)
+	defer setChildEnv(Workload{})
+	h.wideCounters(w, wr)
 
 	// ---- tie (a): point names vs model labels; model queries are answered for this workload until the next load
 	modelOK := false
@@ -142,7 +147,7 @@ func (h *Harness) doWorkload(w Workload, only int, onlyMode string, onlySecond s
 	}
 	var jobs []*job
 	for _, ht := range wr.Hits {
-		if only != 0 && ht.N != only {
+		if !replaySelects(ht, only) {
 			continue
 		}
 		for _, m := range modes {
@@ -154,6 +159,9 @@ func (h *Harness) doWorkload(w Workload, only int, onlyMode string, onlySecond s
 	}
 	// second-crash cases get their own copies, taken BEFORE any child starts to modify the capture
 	s2 := h.stage2Select(w, wr, only, onlySecond)
+	if onlyMode == "clean" {
+		s2 = nil // replay of a clean-restart case: only cleanRestart below
+	}
 	// the library-mode child gets its own copy, taken BEFORE any child starts to modify the capture
 	for _, j := range jobs {
 		if j.mode == "library" {
@@ -199,7 +207,10 @@ func (h *Harness) doWorkload(w Workload, only int, onlyMode string, onlySecond s
 		}
 	}
 	h.stage2Run(w, wr, blocksFile, s2, onlySecond)
-	if only == 0 && (r.Thorough() || r.Replay != "" || w.Name == "extend" || w.Name == "reorg-after-save" || w.Name == "gen0") {
+	if w.Wide != "" && (only == 0 || onlyMode == "clean") {
+		h.cleanRestart(w, wr, blocksFile)
+	}
+	if only == 0 && w.Wide == "" && (r.Thorough() || r.Replay != "" || w.Name == "extend" || w.Name == "reorg-after-save" || w.Name == "gen0") {
 		h.truncations(w, wr, blocksFile)
 	}
 	return complete
@@ -219,7 +230,7 @@ func (h *Harness) judge(w Workload, wr *WlRun, ht Hit, mode string, c *ChildRes)
 
 func (h *Harness) judge2(w Workload, wr *WlRun, ht Hit, mode string, c *ChildRes, second string) bool {
 	r := h.r
-	rep := map[string]interface{}{"case": Case{Workload: w.Name, Hit: ht.N, Mode: mode, Second: second}, "point": ht.Name, "hit_index": ht.Idx, "ops": w.Ops, "child": c, "expected_final": wr.Final}
+	rep := map[string]interface{}{"case": Case{Workload: w.Name, Hit: ht.N, Mode: mode, Second: second, Point: freePoint(w, ht, second), PIdx: ht.Idx}, "point": ht.Name, "hit_index": ht.Idx, "ops": w.Ops, "child": c, "expected_final": wr.Final}
 	where := fmt.Sprintf("workload %s, crash at %s#%d (point %d), %s re-open", w.Name, ht.Name, ht.Idx, ht.N, mode)
 	known := map[string]bool{h.base.Tip: true, h.ref.gen: true}
 	for i := 0; i < ht.NSub && i < len(wr.Names); i++ {
@@ -341,8 +352,8 @@ type s2case struct {
 // file must be what the model computes for "open (LoadBlockIndex + Seek), writeOne …".
 func (h *Harness) posTie(w Workload, c *s2case, sc SecondCap) {
 	r := h.r
-	if sc.Point != "blockdb.write:idx-written" && sc.Point != "end" {
-		return
+	if (sc.Point != "blockdb.write:idx-written" && sc.Point != "end") || w.MaxDat != 0 {
+		return // the positional model has one data file
 	}
 	capDir := strings.TrimRight(c.dir, "/") + ".s2/" + sc.Name + "/"
 	idx, err := os.ReadFile(capDir + "blockchain.new")
@@ -413,7 +424,7 @@ func (h *Harness) stage2Select(w Workload, wr *WlRun, only int, onlySecond strin
 	if w.Free || (only != 0 && onlySecond == "") {
 		return nil
 	}
-	quickSet := w.Name == "extend" || w.Name == "reorg-save-extend" || w.Name == "gen0"
+	quickSet := w.Name == "extend" || w.Name == "reorg-save-extend" || w.Name == "gen0" || w.Wide == "rollover"
 	if !r.Thorough() && only == 0 && !quickSet {
 		return nil
 	}
@@ -434,7 +445,10 @@ func (h *Harness) stage2Select(w Workload, wr *WlRun, only int, onlySecond strin
 			take = true
 		case "blockdb.write:idx-written":
 			idxSeen++
-			take = r.Thorough() || idxSeen == 1 || only != 0
+			take = r.Thorough() || idxSeen == 1 || only != 0 || w.Wide == "rollover"
+		case "utxo.save.file:renamed":
+			// = the directory a clean shutdown at this block boundary leaves behind (blocks flushed, snapshot complete)
+			take = w.Wide == "rollover"
 		}
 		if take && !strings.HasPrefix(onlySecond, "t") {
 			c := &s2case{hit: ht, dir: fmt.Sprintf("%s/%04d-s2/", wr.Snaps, ht.N)}
@@ -444,6 +458,13 @@ func (h *Harness) stage2Select(w Workload, wr *WlRun, only int, onlySecond strin
 			if copyTree(fmt.Sprintf("%s/%04d/", wr.Snaps, ht.N), c.dir) == nil {
 				c.readStart()
 				cs = append(cs, c)
+				if w.Wide == "rollover" {
+					if n, fi := newestFileBlocks(c.dir); n == 1 && fi > 0 {
+						r.Hit("wide:rollover:first-restart-with-exactly-one-block-in-the-newest-data-file")
+					} else {
+						r.Hit("wide:rollover:first-restart-other")
+					}
+				}
 			}
 		}
 		if (i == lastPub && only == 0) || (only != 0 && strings.HasPrefix(onlySecond, "t")) {
@@ -884,8 +905,10 @@ func (h *Harness) replay() {
 	for i := 0; i < 14; i++ {
 		ws = append(ws, genWorkload(g, i))
 	}
+	ws = append(ws, wideWorkloads(&rr, r.Rng.Fork())...)
 	for _, w := range ws {
 		if w.Name == c.Workload {
+			onlyPoint, onlyPIdx = c.Point, c.PIdx
 			if c.Trunc != "" {
 				h.doWorkload(w, 0, "", "")
 			} else {
